@@ -570,7 +570,7 @@ func isIndexGuardDeadlock(dump string) bool {
 		if strings.Contains(g, "guard.(*guard).StartTreasureGuard") && strings.Contains(g, "beacon.(*beacon).") {
 			a = true
 		}
-		if strings.Contains(g, "sync.(*RWMutex).Lock") && strings.Contains(g, "beacon.(*beacon).") &&
+		if (strings.Contains(g, "sync.(*RWMutex).Lock") || strings.Contains(g, "sync.(*RWMutex).RLock")) && strings.Contains(g, "beacon.(*beacon).") &&
 			(strings.Contains(g, "(*swamp).deleteHandler") || strings.Contains(g, "(*swamp).SaveFunction")) {
 			b = true
 		}
